@@ -263,6 +263,10 @@ inductive TailP : List T → List Piece → Prop
   | nil : TailP [] []
   | cons {u : T} {us : List T} {ps rest : List Piece} :
       isPrim u = true → LayP u ps → TailP us rest → TailP (u :: us) (.sp :: (ps ++ rest))
+  /-- the continuation line of a broken pipeline: `⏎~> term` -/
+  | pipe {u : T} {us : List T} {ps rest : List Piece} (k : Nat) :
+      isPrim u = true → LayP u ps → TailP us rest →
+      TailP (u :: us) (.nl k :: .atom ['~', '>'] :: .sp :: (ps ++ rest))
 /-- a field: its value, behind `label:` and a space if it is named (the formatter prints the label
     as ONE text `label: `; the layout keeps the space apart — same text, see `PrintsAs`) -/
 inductive LayF : F → List Piece → Prop
@@ -439,18 +443,39 @@ theorem tailPrintsAs_nil (prev : Bool) : TailPrintsAs prev [] := by
   intro w col i m st
   exact ⟨[], [], col, by simp [chainParts, termDocs, mkFrames], rfl, .nil⟩
 
-theorem tailPrintsAs_cons {u : T} {us : List T} (hp : isPrim u = true)
+theorem tailPrintsAs_cons {prev : Bool} {u : T} {us : List T} (hp : isPrim u = true)
     (hu : PrintsAs (termDoc u) (LayP u)) (ht : TailPrintsAs (isIdent u) us) :
-    TailPrintsAs false (u :: us) := by
+    TailPrintsAs prev (u :: us) := by
   intro w col i m st
-  simp only [List.map_cons, termDocs, chainParts, Bool.false_eq_true, if_false, List.cons_append,
-    List.nil_append, mkFrames, pl_text]
-  obtain ⟨ps', ps, col1, hq, hr, hl⟩ := hu w (col + [' '].length) i m
-    (mkFrames i m (chainParts (isIdent u) (us.map isIdent) (termDocs us)) ++ st)
-  obtain ⟨rs', rs, col2, hq2, hr2, hrest⟩ := ht w col1 i m st
-  rw [hq, hq2]
-  exact ⟨.atom [' '] :: (ps' ++ rs'), .sp :: (ps ++ rs), col2, by simp,
-    by simp [renderPieces_append, renderPieces, Piece.render, hr, hr2], .cons hp hl hrest⟩
+  cases prev with
+  | false =>
+    simp only [List.map_cons, termDocs, chainParts, Bool.false_eq_true, if_false, List.cons_append,
+      List.nil_append, mkFrames, pl_text]
+    obtain ⟨ps', ps, col1, hq, hr, hl⟩ := hu w (col + [' '].length) i m
+      (mkFrames i m (chainParts (isIdent u) (us.map isIdent) (termDocs us)) ++ st)
+    obtain ⟨rs', rs, col2, hq2, hr2, hrest⟩ := ht w col1 i m st
+    rw [hq, hq2]
+    exact ⟨.atom [' '] :: (ps' ++ rs'), .sp :: (ps ++ rs), col2, by simp,
+      by simp [renderPieces_append, renderPieces, Piece.render, hr, hr2], .cons hp hl hrest⟩
+  | true =>
+    simp only [List.map_cons, termDocs, chainParts, if_true, List.cons_append, List.nil_append, mkFrames]
+    cases m with
+    | flat =>
+      rw [pl_line_flat, pl_ifBreak_flat, pl_nil]
+      obtain ⟨ps', ps, col1, hq, hr, hl⟩ := hu w (col + 1) i .flat
+        (mkFrames i .flat (chainParts (isIdent u) (us.map isIdent) (termDocs us)) ++ st)
+      obtain ⟨rs', rs, col2, hq2, hr2, hrest⟩ := ht w col1 i .flat st
+      rw [hq, hq2]
+      exact ⟨.sp :: (ps' ++ rs'), .sp :: (ps ++ rs), col2, by simp,
+        by simp [renderPieces_append, renderPieces, hr, hr2], .cons hp hl hrest⟩
+    | brk =>
+      rw [pl_line_brk, pl_ifBreak_brk, pl_text]
+      obtain ⟨ps', ps, col1, hq, hr, hl⟩ := hu w (i + ['~', '>', ' '].length) i .brk
+        (mkFrames i .brk (chainParts (isIdent u) (us.map isIdent) (termDocs us)) ++ st)
+      obtain ⟨rs', rs, col2, hq2, hr2, hrest⟩ := ht w col1 i .brk st
+      rw [hq, hq2]
+      exact ⟨.nl i :: .atom ['~', '>', ' '] :: (ps' ++ rs'), .nl i :: .atom ['~', '>'] :: .sp :: (ps ++ rs), col2,
+        by simp, by simp [renderPieces_append, renderPieces, Piece.render, hr, hr2], .pipe i hp hl hrest⟩
 
 /-- the last term of a non-empty list, as `getLastD` with any default -/
 theorem getLastD_cons_cons (a b : T) (l : List T) (d : T) : (a :: b :: l).getLastD d = (b :: l).getLastD a := by
@@ -488,34 +513,24 @@ theorem printLoop_term : (t : T) → T.WF t → PrintsAs (termDoc t) (LayP t)
   | .chain t [], hwf => absurd rfl hwf.1
   | .chain t (u :: us), hwf => by
     obtain ⟨_, hpt, hwt, hwm, hok⟩ := hwf
-    simp only [chainOk, Bool.and_eq_true, Bool.not_eq_true'] at hok
-    have hnl : (t :: u :: us).dropLast = t :: (u :: us).dropLast := by simp [List.dropLast]
-    rw [hnl, List.all_cons, Bool.and_eq_true, Bool.not_eq_true'] at hok
-    obtain ⟨⟨hti, hrest⟩, hlast⟩ := hok
+    simp only [chainOk, Bool.not_eq_true'] at hok
     have ht := printLoop_term t hwt
-    have htail := printLoop_tail (u :: us) hwm hrest
-    simp only [termDoc, multiChainDoc, hlast, Bool.false_and, Bool.false_eq_true, if_false, hti,
-      List.map_cons]
+    have htail := printLoop_tail (isIdent t) (u :: us) hwm
+    simp only [termDoc, multiChainDoc, hok, Bool.false_and, Bool.false_eq_true, if_false, List.map_cons]
     refine (printsAs_groupChain ?_)
     intro w col i m st
     simp only [mkFrames, List.cons_append]
     obtain ⟨ps', ps, col1, hq, hr, hl⟩ := ht w col i m
-      (mkFrames i m (chainParts false (isIdent u :: us.map isIdent) (termDocs (u :: us))) ++ st)
+      (mkFrames i m (chainParts (isIdent t) (isIdent u :: us.map isIdent) (termDocs (u :: us))) ++ st)
     obtain ⟨rs', rs, col2, hq2, hr2, hrs⟩ := htail w col1 i m st
     simp only [List.map_cons] at hq2
     rw [hq, hq2]
     exact ⟨ps' ++ rs', ps ++ rs, col2, by simp, by simp [renderPieces_append, hr, hr2], .chain hpt hl hrs⟩
-/-- the further terms of a chain (`prev` = false: no term before the last is a call-ender) -/
-theorem printLoop_tail : (more : List T) → T.WFTerms more →
-    (more.dropLast.all fun t => !isIdent t) = true → TailPrintsAs false more
-  | [], _, _ => tailPrintsAs_nil false
-  | [u], hwf, _ => tailPrintsAs_cons hwf.1.1 (printLoop_term u hwf.1.2) (tailPrintsAs_nil _)
-  | u :: v :: vs, hwf, hnl => by
-    have hd : (u :: v :: vs).dropLast = u :: (v :: vs).dropLast := by simp [List.dropLast]
-    rw [hd, List.all_cons, Bool.and_eq_true, Bool.not_eq_true'] at hnl
-    have ht := printLoop_tail (v :: vs) hwf.2 hnl.2
-    refine tailPrintsAs_cons hwf.1.1 (printLoop_term u hwf.1.2) ?_
-    rw [hnl.1]; exact ht
+/-- the further terms of a chain; `prev` = the term before them is a call-ender -/
+theorem printLoop_tail : (prev : Bool) → (more : List T) → T.WFTerms more → TailPrintsAs prev more
+  | prev, [], _ => tailPrintsAs_nil prev
+  | _, u :: us, hwf =>
+    tailPrintsAs_cons hwf.1.1 (printLoop_term u hwf.1.2) (printLoop_tail (isIdent u) us hwf.2)
 theorem printLoop_field : (f : F) → F.WF f → PrintsAs (fieldDocOf f) (LayF f)
   | .mk none t, hwf => by
     have := printsAs_fieldDoc (printsAs_chainDocOf (printLoop_term t hwf.2))
@@ -615,6 +630,10 @@ theorem tailP_tidy : ∀ {us : List T} {ps : List Piece}, TailP us ps →
   | _, _, .cons _ hl ht, r, hr => by
     have := layP_tidy hl false (_ ++ r) (tailP_tidy ht r hr)
     simpa [tidyPs] using this
+  | _, _, .pipe k _ hl ht, r, hr => by
+    have h1 : goodAtom ['~', '>'] = true := by decide
+    have := layP_tidy hl false (_ ++ r) (tailP_tidy ht r hr)
+    simpa [tidyPs, okAtom, h1] using this
 theorem layF_tidy : ∀ {f : F} {ps : List Piece}, LayF f ps →
     ∀ (b : Bool) (r : List Piece), tidyPs true r = true → tidyPs b (ps ++ r) = true
   | _, _, .unnamed hl, b, r, hr => layP_tidy hl b r hr
@@ -662,6 +681,9 @@ theorem tailP_nulFree : ∀ {us : List T} {ps : List Piece}, TailP us ps → nul
   | _, _, .nil => rfl
   | _, _, .cons _ hl ht => by
     simp only [nulFree, nulFree_append, layP_nulFree hl, tailP_nulFree ht, Bool.and_self]
+  | _, _, .pipe k _ hl ht => by
+    have h1 : nulAtom ['~', '>'] = true := by decide
+    simp only [nulFree, nulFree_append, layP_nulFree hl, tailP_nulFree ht, h1, Bool.and_self]
 theorem layF_nulFree : ∀ {f : F} {ps : List Piece}, LayF f ps → nulFree ps = true
   | _, _, .unnamed hl => layP_nulFree hl
   | _, _, .named hn hl => by
@@ -1447,12 +1469,49 @@ theorem stop_sp {s : Str} (h : HeadOk s) : Stop (' ' :: s) := by
   rw [headAll_cons]
   simpa using headCls_ne hc '(' (by decide)
 
+/-- a term may be followed by a continuation line `⏎~> …` -/
+theorem stop_pipe (k : Nat) (x : Str) : Stop ('\n' :: (List.replicate k ' ' ++ '~' :: '>' :: x)) := by
+  refine ⟨by simp [IdStop]; decide, by rw [headAll_cons]; decide, ?_⟩
+  have : ('\n' :: (List.replicate k ' ' ++ '~' :: '>' :: x)).dropWhile isMultispace = '~' :: '>' :: x := by
+    rw [List.dropWhile_cons, show isMultispace '\n' = true by decide]
+    simp only [if_true]
+    induction k with
+    | zero => simp [show isMultispace '~' = false by decide]
+    | succ k ih =>
+      rw [List.replicate_succ, List.cons_append, List.dropWhile_cons, show isMultispace ' ' = true by decide]
+      simpa using ih
+  rw [this, headAll_cons]
+  decide
+
+/-- the continuation separator `⏎~> ` -/
+theorem chainSep_pipe (k : Nat) {s : Str} (h : HeadOk s) :
+    chainSep ('\n' :: (List.replicate k ' ' ++ '~' :: '>' :: ' ' :: s)) = .ok () s := by
+  have hdrop : (List.replicate k ' ' ++ '~' :: '>' :: ' ' :: s).dropWhile isMultispace = '~' :: '>' :: ' ' :: s := by
+    induction k with
+    | zero => simp [show isMultispace '~' = false by decide]
+    | succ k ih =>
+      rw [List.replicate_succ, List.cons_append, List.dropWhile_cons, show isMultispace ' ' = true by decide]
+      simpa using ih
+  have hws : ws1 ('\n' :: (List.replicate k ' ' ++ '~' :: '>' :: ' ' :: s)) = .ok () ('~' :: '>' :: ' ' :: s) := by
+    simp [ws1, show isMultispace '\n' = true by decide, hdrop]
+  have hws2 : ws1 (' ' :: s) = .ok () s := by
+    simp [ws1, show isMultispace ' ' = true by decide, headOk_not_ms h]
+  unfold chainSep
+  refine alt_of_ok ?_
+  rw [seq_ok hws]
+  have ht : ptag ['~', '>'] ('~' :: '>' :: ' ' :: s) = .ok () (' ' :: s) := ptag_append ['~', '>'] (' ' :: s)
+  rw [seq_ok ht]
+  exact hws2
+
 theorem tailP_stop {us : List T} {ps : List Piece} (h : TailP us ps) {rest : Str} (hs : Stop rest) :
     Stop (renderPieces ps ++ rest) := by
   cases h with
   | nil => simpa [renderPieces] using hs
   | @cons u us ps0 rest0 _ hl _ =>
     have := stop_sp (((layP_head hl).append (renderPieces rest0)).append rest)
+    simpa [renderPieces, Piece.render, renderPieces_append] using this
+  | @pipe u us ps0 rest0 k _ hl _ =>
+    have := stop_pipe k (' ' :: (renderPieces ps0 ++ (renderPieces rest0 ++ rest)))
     simpa [renderPieces, Piece.render, renderPieces_append] using this
 
 /-- the named-field alternative fails on any unnamed field value -/
@@ -1606,6 +1665,15 @@ theorem tail_lay : ∀ {us : List T} {ps : List Piece}, TailP us ps → ∀ (n :
     rw [hsplit]
     exact sepTail_cons sound_chainSep (termP_sound n) (chainSep_sp ((layP_head hl).append _))
       (by simp) (termP_lay hl hp n _ hl1.1 (tailP_stop ht hs.1)) (tail_lay ht n rest hl1.2 hs)
+  | _, _, .pipe (ps := ps) (rest := rs) k hp hl ht, n, rest, hlen, hs => by
+    have hsplit : renderPieces (.nl k :: .atom ['~', '>'] :: .sp :: (ps ++ rs)) ++ rest =
+        '\n' :: (List.replicate k ' ' ++ '~' :: '>' :: ' ' :: (renderPieces ps ++ (renderPieces rs ++ rest))) := by
+      simp [renderPieces, Piece.render, renderPieces_append]
+    have hl1 : (renderPieces ps).length < n ∧ (renderPieces rs).length < n := by
+      simp [renderPieces, Piece.render, renderPieces_append] at hlen; omega
+    rw [hsplit]
+    exact sepTail_cons sound_chainSep (termP_sound n) (chainSep_pipe k ((layP_head hl).append _))
+      (by simp; omega) (termP_lay hl hp n _ hl1.1 (tailP_stop ht hs.1)) (tail_lay ht n rest hl1.2 hs)
 theorem fieldP_lay : ∀ {f : F} {ps : List Piece}, LayF f ps → ∀ (n : Nat) (rest : Str),
     (renderPieces ps).length < n → StopC rest → fieldP (chainP (termP n)) (renderPieces ps ++ rest) = .ok f rest
   | _, _, .unnamed hl, n, rest, hlen, hstop => by
